@@ -331,7 +331,7 @@ def describe(obs, exp, line, tr):
             % (line, tr, obs.get('op'), ' id %s' % obs['id'] if 'id' in obs else '', sorted(diff_components(obs, exp)), exp[:600]))
 
 
-def handle_mismatches(c, drv, found):
+def handle_mismatches(c, drv, found, ordered=None):
     """found = [(tag, scenario, line_in_file, first_line_of_trace, expected, observed)].  Group the mismatching traces by failing
     pattern; replay the shortest scenario of every group alone, twice, in fresh processes; the verdict and its label come from
     what the replay shows (both replays must fail at the same operation)."""
@@ -353,6 +353,15 @@ def handle_mismatches(c, drv, found):
             m2, _ = run_and_validate(c, drv, [read_ndjson(rp)], 'confirm%d' % i)
             runs.append(m2[0] if m2 else None)
         if not runs[0] or not runs[1] or runs[0][1] != runs[1][1]:
+            # not reproducible alone: the failure may need the pooled objects an earlier scenario left behind
+            got = eclib.confirm_behind_predecessors(c, drv, (ordered or {}).get(tag, []), tr) if tag != 'stress' else None
+            if got:
+                lines, (_, line, exp, obs) = got
+                rp = c.save_replay('%s-tr%d-with-predecessors.ndjson' % (tag, tr), lines)
+                if ('pooled', tag) not in reported:
+                    reported.add(('pooled', tag))
+                    c.violation('reproduced only behind its predecessor scenarios (state left in pooled objects): ' + describe(obs, exp, line, tr), rp)
+                continue
             c.inconclusive.append('mismatch of %s trace %d did not reproduce from its replay file (%s)' % (
                 tag, tr, [r and r[1] for r in runs]))
             continue
@@ -467,7 +476,7 @@ def check(c, tier, replay):
                     selftested = True
             fl, by_tr = first_lines(tp), {s[0]['tr']: s for s in part}
             found += [(tag, by_tr[t], line, fl[t], exp, obs) for t, line, exp, obs in mism]
-    handle_mismatches(c, drv, found)
+    handle_mismatches(c, drv, found, dict(directed=seeded, tlc=scns, stat=rs, **{'global': rg}))
     if not selftested:
         c.inconclusive.append('binding self-test did not run')
     allscn = seeded + scns + rs + rg + st
